@@ -145,5 +145,5 @@ def run(ctx, replay=None):
     finally:
         model.close()
     ctx.extra['rule'] = ('2-D point sets n<=25 (lattice, dyadic, duplicates, clustered) x azimuth in [-180,180] x tolerance in [0,360] x bandwidth (number or quantile string) x compass/triangle x n_lags x estimator; '
-                         'pairs within 1e-7 degrees / 1e-9 of the tolerance / bandwidth boundary and zero-length pairs excluded; non-trivial = at least 2 selected and 1 unselected pair')
+                         'pairs within 1e-5 degrees / 1e-9 of the tolerance / bandwidth boundary and zero-length pairs excluded; non-trivial = at least 2 selected and 1 unselected pair')
     return core.finish(ctx, coq, dc.TRUSTED, ['the geometric theorems are over R for every pair vector of positive length; the tie to the code is the translator plus the per-pair evaluation'])
